@@ -32,14 +32,14 @@ type Exit struct {
 }
 
 type loopInfo struct {
-	head   *ssa.BasicBlock
-	index  int
-	body   map[*ssa.BasicBlock]bool
-	spec   *LoopSpec
+	head  *ssa.BasicBlock
+	index int
+	body  map[*ssa.BasicBlock]bool
+	spec  *LoopSpec
 	// filled while executing
-	measures []string
+	measures  []string
 	oldAtHead *State
-	framed   []string
+	framed    []string
 }
 
 type deferRec struct {
@@ -69,28 +69,28 @@ func newWriteRec() *writeRec {
 }
 
 type Frame struct {
-	vc      *VC
-	fn      *ssa.Function
-	con     *Contract
-	vals    map[ssa.Value]Val
-	params  map[string]Val // entry values of parameters (and receiver) by source name
-	entry   *State
-	depth   int
-	top     bool
-	dry     bool
-	rec     *writeRec
-	exits   []Exit
-	loops   map[*ssa.BasicBlock]*loopInfo
-	retIdx  map[*ssa.Return]int
-	callIdx map[ssa.Instruction]int
-	stack   []*ssa.Function
-	spec    map[string]Val // ghosts, lets
-	edgeCnd map[*ssa.BasicBlock]map[*ssa.BasicBlock]string
-	defers  []*ssa.Defer
-	label   string // prefix for obligation names
-	parent  *Frame
+	vc        *VC
+	fn        *ssa.Function
+	con       *Contract
+	vals      map[ssa.Value]Val
+	params    map[string]Val // entry values of parameters (and receiver) by source name
+	entry     *State
+	depth     int
+	top       bool
+	dry       bool
+	rec       *writeRec
+	exits     []Exit
+	loops     map[*ssa.BasicBlock]*loopInfo
+	retIdx    map[*ssa.Return]int
+	callIdx   map[ssa.Instruction]int
+	stack     []*ssa.Function
+	spec      map[string]Val // ghosts, lets
+	edgeCnd   map[*ssa.BasicBlock]map[*ssa.BasicBlock]string
+	defers    []*ssa.Defer
+	label     string // prefix for obligation names
+	parent    *Frame
 	unwinding *unwindCtx
-	mods    map[string][]string
+	mods      map[string][]string
 }
 
 func (f *Frame) pos(p token.Pos) token.Position {
@@ -1737,6 +1737,9 @@ func (f *Frame) frameFormula(s *State, comp string) string {
 	}
 	now, ok := s.heap[comp]
 	init := q("H0 " + comp)
+	if et, has := r.entry.heap[comp]; has {
+		init = et
+	}
 	if !ok || now == init {
 		return ""
 	}
